@@ -1,5 +1,5 @@
 // Kani harnesses for crates/erbium-core/src/dns/config.rs (C19: the dns-routes section is parsed totally).
-// Yaml values are built by hand; mappings are empty or hold one CONCRETE string key.
+// Yaml values are built by hand; mappings can only be EMPTY (see the note at the end of the file).
 #[cfg(kani)]
 mod k {
     use super::super::*;
@@ -62,76 +62,30 @@ mod k {
         std::mem::forget(y);
     }
 
-    /// VERIF: {"p":"C19","tier":"quick","fns":["dns::config::parse_dns_route","dns::config::parse_dns_routes","config::parse_array","config::type_to_name"],"bounds":"both parsers on one value of every Yaml variant: Real, Integer(any), String, Boolean(any), `[~]`, `[\"a\",\"b\"]`, Alias(any), Null, BadValue, `[]`, `{}`, `[{}]`, `[[]]`","oracle":"list of mappings => Ok; null => Ok(None); everything else => Err(InvalidConfig); never a panic","stubs":["alloc::fmt::format -> empty string (message text only)","std::hash::RandomState::new -> fixed keys (creating empty maps)"],"covers":3,"unwind":6}
+    /// VERIF: {"p":"C19","tier":"quick","fns":["dns::config::parse_dns_route","dns::config::parse_dns_routes","config::parse_array","config::type_to_name"],"bounds":"both parsers on one value, one after the other, of every Yaml variant: Real, Integer(any), String, Boolean(any), `[~]`, `[\"a\",\"b\"]`, Alias(any), Null, BadValue, `[]`, `{}`, `[{}]`, `[[]]`","oracle":"list of mappings => Ok; null => Ok(None); everything else => Err(InvalidConfig); never a panic","stubs":["alloc::fmt::format -> empty string (message text only)","std::hash::RandomState::new -> fixed keys (creating empty maps)"],"covers":1,"unwind":6}
     #[kani::proof]
     #[kani::unwind(6)]
     #[kani::stub(alloc::fmt::format, empty_format)]
     #[kani::stub(std::hash::RandomState::new, fixed_random_state)]
     fn c19_dns_routes_wrong_type() {
-        let k: u8 = kani::any();
-        kani::cover!(k == 11, "a list of one empty mapping");
-        kani::cover!(k == 12, "[[]]");
-        kani::cover!(k == 2, "string");
-        match k {
-            0 => routes_on(KIND_REAL),
-            1 => routes_on(KIND_INT),
-            2 => routes_on(KIND_STR),
-            3 => routes_on(KIND_BOOL),
-            4 => routes_on(KIND_ARR_NULL),
-            5 => routes_on(KIND_ARR_STRS),
-            6 => routes_on(KIND_ALIAS),
-            7 => routes_on(KIND_NULL),
-            8 => routes_on(KIND_BAD),
-            9 => routes_on(KIND_ARR_EMPTY),
-            10 => routes_on(KIND_HASH_EMPTY),
-            11 => routes_on(KIND_ARR_HASH_EMPTY),
-            _ => routes_on(KIND_ARR_ARR_EMPTY),
-        }
+        routes_on(KIND_REAL);
+        routes_on(KIND_INT);
+        routes_on(KIND_STR);
+        routes_on(KIND_BOOL);
+        routes_on(KIND_ARR_NULL);
+        routes_on(KIND_ARR_STRS);
+        routes_on(KIND_ALIAS);
+        routes_on(KIND_NULL);
+        routes_on(KIND_BAD);
+        routes_on(KIND_ARR_EMPTY);
+        routes_on(KIND_HASH_EMPTY);
+        routes_on(KIND_ARR_HASH_EMPTY);
+        routes_on(KIND_ARR_ARR_EMPTY);
+        kani::cover!(true, "every call returned");
     }
 
-    fn hash1(k: &str, v: Yaml) -> Yaml {
-        let mut h = yaml_rust::yaml::Hash::new();
-        h.insert(Yaml::String(String::from(k)), v);
-        Yaml::Hash(h)
-    }
-
-    /// VERIF: {"p":"C19","tier":"thorough","fns":["dns::config::parse_dns_route","config::parse_string","config::parse_array","config::parse_string_ip"],"bounds":"route mapping with exactly one key: {type: \"forward\"|\"forge-nxdomain\"|\"x\"|~|<any i64>}, {dns-servers: []|[\"192.0.2.53\"]|[\"192.0.2.53\",\"2001:db8::53\"]|\"x\"}, {domain-suffixes: []|[<any i64>]}, {bogus: ~}, {7: ~}","oracle":"Ok(route) for the well-formed ones with the handler the manual describes; two servers, unknown type, null type, unknown key, non-string key, wrong value types => Err(InvalidConfig); never a panic","stubs":["alloc::fmt::format -> empty string (message text only)","std::hash::RandomState::new -> fixed keys"],"covers":2,"unwind":20}
-    #[kani::proof]
-    #[kani::unwind(20)]
-    #[kani::stub(alloc::fmt::format, empty_format)]
-    #[kani::stub(std::hash::RandomState::new, fixed_random_state)]
-    fn c19_dns_route_one_key() {
-        let w: u8 = kani::any();
-        kani::cover!(w == 0, "type: forward");
-        kani::cover!(w == 7, "two servers");
-        let s = |x: &str| Yaml::String(String::from(x));
-        let (y, want): (Yaml, u8) = match w {
-            0 => (hash1("type", s("forward")), 1),
-            1 => (hash1("type", s("forge-nxdomain")), 2),
-            2 => (hash1("type", s("x")), 0),
-            3 => (hash1("type", Yaml::Null), 0),
-            4 => (hash1("type", Yaml::Integer(kani::any())), 0),
-            5 => (hash1("dns-servers", Yaml::Array(Vec::new())), 1),
-            6 => (hash1("dns-servers", Yaml::Array(vec![s("192.0.2.53")])), 3),
-            7 => (hash1("dns-servers", Yaml::Array(vec![s("192.0.2.53"), s("2001:db8::53")])), 0),
-            8 => (hash1("dns-servers", s("x")), 0),
-            9 => (hash1("domain-suffixes", Yaml::Array(Vec::new())), 1),
-            10 => (hash1("domain-suffixes", Yaml::Array(vec![Yaml::Integer(kani::any())])), 0),
-            11 => (hash1("bogus", Yaml::Null), 0),
-            _ => {
-                let mut h = yaml_rust::yaml::Hash::new();
-                h.insert(Yaml::Integer(7), Yaml::Null);
-                (Yaml::Hash(h), 0)
-            }
-        };
-        let r = parse_dns_route("dns-routes", &y);
-        match want {
-            0 => assert!(is_invalid_config(&r), "malformed route => InvalidConfig"),
-            1 => assert!(matches!(&r, Ok(Some(Route { suffixes, dest: Handler::Forward(v) })) if suffixes.is_empty() && v.is_empty()), "forward route without servers"),
-            2 => assert!(matches!(&r, Ok(Some(Route { suffixes, dest: Handler::ForgeNxDomain })) if suffixes.is_empty()), "forge-nxdomain route"),
-            _ => assert!(matches!(&r, Ok(Some(Route { dest: Handler::Forward(v), .. })) if v.len() == 1 && v[0].port() == 53), "forward route to port 53 of the one server"),
-        }
-        std::mem::forget(r);
-        std::mem::forget(y);
-    }
+    // NOT REACHABLE (measured): any mapping with at least one entry.  yaml_rust's Hash is a LinkedHashMap over
+    // std's HashMap; one `insert` of one CONCRETE key (RandomState stubbed) does not finish within 900 s of CBMC
+    // time, so parsers that iterate over a populated mapping (parse_dns_route with keys) cannot be driven
+    // from here.  The YAML-level behaviour of those paths was confirmed natively instead (see the report).
 }
